@@ -249,12 +249,13 @@ func init() {
 		MinInst: 6,
 		Run: func(c *RuleCtx) {
 			rd := c.Fn("reassemblyQueue.read")
+			// "err": a value that may hold io.ErrShortBuffer (directly, through φ, or as a helper's result)
 			noErr := func(v ssa.Value, t bool) bool {
 				b, ok := v.(*ssa.BinOp)
 				if !ok || !isNilConst(b.Y) {
 					return false
 				}
-				if _, isPhi := b.X.(*ssa.Phi); !isPhi {
+				if !mayBeGlobal(b.X, "io", "ErrShortBuffer", 0, map[ssa.Value]bool{}) {
 					return false
 				}
 				return (b.Op == token.NEQ && !t) || (b.Op == token.EQL && t)
@@ -273,17 +274,25 @@ func init() {
 			c.Check(n >= 8, "read-mutations", c.P.Pos(rd.Pos()), fmt.Sprintf("%d mutation sites, all on the success side", n), "mutation sites missing")
 			// the short-buffer test compares remaining space with the fragment length
 			okT := 0
-			forEachInstr(rd, func(in ssa.Instruction) {
-				ifi, ok := in.(*ssa.If)
-				if !ok {
-					return
-				}
-				b, ok := ifi.Cond.(*ssa.BinOp)
-				if ok && b.Op == token.LSS && Derives(isLenOfParam(rd, 1))(b.X) {
-					okT++
-				}
-			})
-			c.Check(okT == 2, "short-buffer-test", c.P.Pos(rd.Pos()), "len(buf)-nTotal < len(fragment) test in both framings", fmt.Sprintf("%d short-buffer tests", okT))
+			for _, g := range c.P.Region(rd) {
+				forEachInstr(g, func(in ssa.Instruction) {
+					ifi, ok := in.(*ssa.If)
+					if !ok {
+						return
+					}
+					b, ok := ifi.Cond.(*ssa.BinOp)
+					if !ok || b.Op != token.LSS {
+						return
+					}
+					// len(<the caller's buffer>) - copied < len(fragment): the buffer is a []byte parameter
+					for i, prm := range g.Params {
+						if typeShort(prm.Type()) == "[]byte" && Derives(isLenOfParam(g, i))(b.X) {
+							okT++
+						}
+					}
+				})
+			}
+			c.Check(okT >= 1, "short-buffer-test", c.P.Pos(rd.Pos()), fmt.Sprintf("len(buf)-nTotal < len(fragment) tested (%d site(s)) for both framings", okT), "no short-buffer test found")
 			// ReadSCTP returns short-buffer results instead of waiting
 			rs := c.Fn("Stream.ReadSCTP")
 			okR := false
